@@ -30,6 +30,8 @@ def run(ctx):
             e = dict(os.environ, VERIF_DIGESTS="1", VERIF_SEED=str(ctx.seed), VERIF_SCRATCH=scratch)
             r = subprocess.run([os.path.join(vlib.BIN, "layers_drive"), p, str(hist), str(ev), mode], env=e, stdout=subprocess.PIPE, stderr=subprocess.PIPE, text=True, timeout=3600)
             if r.returncode != 0:
+                if r.returncode in (101, -6, 134):   # a panic in the process that runs the code under test is an observation
+                    ctx.violation(f"layers_drive ({mode}): the process running the code under test panicked", r.stderr[-800:], {"mode": mode}, "paired_runs")
                 raise vlib.ToolError(f"layers_drive failed: {r.stderr[-500:]}")
             outs.append([json.loads(x) for x in open(p)])
         a, b = outs
